@@ -75,8 +75,11 @@ def struct_diff(t1, t2):
         elif isinstance(a, (str, bytes)):
             if a != b:
                 e = {'new_value': b, 'old_value': a}
-                sa = a.decode('ascii') if isinstance(a, bytes) else a
-                sb = b.decode('ascii') if isinstance(b, bytes) else b
+                try:                      # the text diff is a convenience for texts: byte strings take part when they are UTF-8 text (as they stand, a BOM included)
+                    sa = a.decode('utf-8') if isinstance(a, bytes) else a
+                    sb = b.decode('utf-8') if isinstance(b, bytes) else b
+                except UnicodeDecodeError:
+                    sa = sb = ''
                 if '\n' in sa or '\n' in sb:
                     d = list(difflib.unified_diff(sa.splitlines(), sb.splitlines(), lineterm=''))
                     if d:
@@ -95,6 +98,12 @@ def run(ctx, impl_only=False):
     # items at the same position that are == but of different types: a type change by the definition
     pairs += [([1, 'x'], [True, 'x']), ([1.0, 2], [1, 2]), ([{1, 2}, 'x'], [frozenset({1, 2}), 'x']), ((1, [True, 2.0]), (1, [1, 2])), ({'k': [{'a': 1}]}, {'k': [{'a': True}]}),
               ([0, 0.0, False], [False, 0, 0.0]), (((1, 2), [3]), ((1.0, 2), [3])), ([[1], [1]], [[1.0], [True]]), ({'a': (0, 'z')}, {'a': (False, 'z')})]
+    # byte strings that differ only in what a lenient decoder drops or replaces: a leading byte order mark, undecodable bytes, a NUL, line ends
+    BOM = b'\xef\xbb\xbf'
+    for (x, y) in [(BOM + b'abc', b'abc'), (b'abc', BOM + b'abc'), (BOM + b'l1\nl2', b'l1\nl2'), (BOM + b'l1\nl2', BOM + b'l1\nl3'), (BOM, b''), (b'a\xffb', b'a\xfeb'), (b'a\xff', b'a'),
+                   (b'abc\x00', b'abc'), (b'a\r\nb', b'a\nb'), (b'l1\nl2\n', b'l1\nl2'), ('l1\r\nl2', 'l1\nl2'), ('a\x0cb\nc', 'a\nb\nc'), ('x\u2028y\nz', 'x\ny\nz'), ('a\nb\n', 'a\nb')]:
+        for w in (lambda v: v, lambda v: {'k': v}, lambda v: [v, 1], lambda v: ('z', [v])):
+            pairs.append((w(x), w(y)))
     eqv = [0, 1, 2, True, False, 1.0, 0.0, 2.0]
     for _ in range(max(10, n // 8)):
         xs = [ctx.rng.choice(eqv + ['a', None]) for _ in range(ctx.rng.randint(1, 5))]
